@@ -138,7 +138,7 @@ pub fn generate_c04(tier: &str, rng: &mut Prng) -> Vec<Case> {
         // (see below for the special seeds)
         // seeds whose candidate stream touches one of ntru_gen's guards (corpus/special_seeds.txt): a candidate with a zero
         // NTT slot, a Gram-Schmidt norm next to the bound, coefficients at the range limits
-        for (kind, q) in [("ntt_zero", 6), ("gamma_below", 4), ("gamma_above", 4), ("range_fg", 3), ("range_capital", 3)] {
+        for (kind, q) in [("ntt_zero", 6), ("gamma_below", 4), ("gamma_above", 4), ("range_fg", 3), ("range_capital", 3), ("f_product_one", 1), ("h_top_zero", 1)] {
             for seed in crate::seeds::special(n, tier, kind, q) {
                 let k = keygen_info(n, &seed);
                 let (f, g, cf, cg) = fgfg(&k);
@@ -151,6 +151,35 @@ pub fn generate_c04(tier: &str, rng: &mut Prng) -> Vec<Case> {
 }
 
 pub fn oracle_c04(op: &[&str], out: &str) -> Verdict {
+    match op[0] {
+        "keygen" => {
+            // the key as the op returned it, and the key the same seed gives on a thread that has just generated a key of
+            // the other variant (state left behind by one variant must not reach the other's keys)
+            match judge_key(op, out) {
+                Verdict::Pass => {}
+                other => return other,
+            }
+            let n: usize = op[1].parse().unwrap();
+            let seed = unhex(op[2]);
+            let (tx, rx) = std::sync::mpsc::channel::<String>();
+            let _ = std::thread::Builder::new().stack_size(256 << 20).spawn(move || {
+                let _ = keygen_info(1536 - n, &[9u8, 9, 9]);
+                let _ = tx.send(op_keygen(n, &seed));
+            });
+            match rx.recv_timeout(std::time::Duration::from_secs(240)) {
+                Ok(out2) => match judge_key(op, &out2) {
+                    Verdict::Fail(m) => Verdict::Fail(format!("after a key of the other variant was generated on the same thread: {m}")),
+                    v => v,
+                },
+                Err(std::sync::mpsc::RecvTimeoutError::Timeout) => Verdict::Fail("key generation did not return within 240 s on a thread that had generated a key of the other variant".into()),
+                Err(_) => Verdict::Fail("key generation panicked on a thread that had generated a key of the other variant".into()),
+            }
+        }
+        _ => judge_key(op, out),
+    }
+}
+
+fn judge_key(op: &[&str], out: &str) -> Verdict {
     match op[0] {
         "keygen" => {
             if out.starts_with("PANIC") {
@@ -346,7 +375,7 @@ pub fn generate_c05(tier: &str, rng: &mut Prng) -> Vec<Case> {
         for _ in 0..per {
             seeds.push(seed_for(rng, 5));
         }
-        for (kind, q) in [("range_fg", 3), ("range_capital", 4), ("gamma_above", 2)] {
+        for (kind, q) in [("range_fg", 3), ("range_capital", 4), ("gamma_above", 2), ("f_product_one", 1), ("h_top_zero", 1), ("h_const_zero", 1)] {
             seeds.extend(crate::seeds::special(n, tier, kind, q));
         }
         for seed in seeds {
